@@ -95,6 +95,7 @@ func (in *vfC18Inst) connect(name string) {
 
 func (in *vfC18Inst) Enabled() []string {
 	var evs []string
+	var logs map[string]int
 	for _, name := range []string{"a", "b"} {
 		if in.conn[name] {
 			evs = append(evs, "sub:"+name, "unsub:"+name, "disc:"+name)
@@ -117,6 +118,14 @@ func (in *vfC18Inst) Enabled() []string {
 		}
 		if h.pending == nil {
 			evs = append(evs, "next:"+h.name)
+			// (only with something in the log: on an empty log the call chooses between a stale wake-up signal and
+			// its dead context, and that choice is the runtime's)
+			if logs == nil {
+				_, logs = in.truth()
+			}
+			if logs[h.name] > 0 {
+				evs = append(evs, "nextdead:"+h.name)
+			}
 		} else {
 			evs = append(evs, "cancelnext:"+h.name)
 		}
@@ -255,6 +264,12 @@ func (in *vfC18Inst) Apply(evFull string, judge bool) string {
 		in.handlers = append(in.handlers, eh)
 	case "next":
 		in.startNext(in.handler(arg))
+	case "nextdead":
+		// NextPeerEvent with a context that is already cancelled: it may hand out a pending event or report the
+		// cancellation, but whatever it took from the log it has to hand out
+		h := in.handler(arg)
+		in.startNext(h)
+		h.pending.cancel()
 	case "cancelnext":
 		in.handler(arg).pending.cancel()
 	case "hcancel":
